@@ -81,6 +81,72 @@ fn fiin_entry(i: usize, name: &str) -> FIINEntry {
     FIINEntry { file_size: (i as i32) * 1_000_003 + 5, file_name: name.to_string(), sha1: dg }
 }
 
+/// SHA-1 straight from FIPS 180-4 (80 scalar rounds), independent of the library's 4-lane code
+fn fiin_fips_sha1(data: &[u8]) -> Vec<u8> {
+    let mut h: [u32; 5] = [0x67452301, 0xEFCDAB89, 0x98BADCFE, 0x10325476, 0xC3D2E1F0];
+    let mut msg = data.to_vec();
+    msg.push(0x80);
+    while msg.len() % 64 != 56 { msg.push(0); }
+    msg.extend_from_slice(&((data.len() as u64) * 8).to_be_bytes());
+    for block in msg.chunks(64) {
+        let mut w = [0u32; 80];
+        for t in 0..16 { w[t] = u32::from_be_bytes([block[4 * t], block[4 * t + 1], block[4 * t + 2], block[4 * t + 3]]); }
+        for t in 16..80 { w[t] = (w[t - 3] ^ w[t - 8] ^ w[t - 14] ^ w[t - 16]).rotate_left(1); }
+        let (mut a, mut b, mut c, mut d, mut e) = (h[0], h[1], h[2], h[3], h[4]);
+        for t in 0..80 {
+            let (f, k) = match t / 20 { 0 => ((b & c) | (!b & d), 0x5A827999u32), 1 => (b ^ c ^ d, 0x6ED9EBA1), 2 => ((b & c) | (b & d) | (c & d), 0x8F1BBCDC), _ => (b ^ c ^ d, 0xCA62C1D6) };
+            let tmp = a.rotate_left(5).wrapping_add(f).wrapping_add(e).wrapping_add(k).wrapping_add(w[t]);
+            e = d; d = c; c = b.rotate_left(30); b = a; a = tmp;
+        }
+        h[0] = h[0].wrapping_add(a); h[1] = h[1].wrapping_add(b); h[2] = h[2].wrapping_add(c); h[3] = h[3].wrapping_add(d); h[4] = h[4].wrapping_add(e);
+    }
+    h.iter().flat_map(|x| x.to_be_bytes()).collect()
+}
+
+//@unit props=C10 label=B tier=quick native=1 fn=fiin::FileInfo::new bound="by execution on temporary files: 10 files of 0, 1, 55, 56, 63, 64, 65, 100, 128 and 5000 bytes in nested directories, listed in 4 orders (as is, reversed, long files first, each file alone), relative and absolute paths"
+//@desc a table built from files lists, per file and in the order given, its base name, its exact size and its SHA-1 digest (against an independent FIPS 180-4 implementation); an entry does not depend on which files were listed before it; the written table holds those values in the 96-byte records
+#[test]
+fn native_fiin_new() {
+    let root = std::env::temp_dir().join(format!("physis-verif-c10new-{}", std::process::id()));
+    let _ = std::fs::remove_dir_all(&root);
+    std::fs::create_dir_all(root.join("sub/deeper")).unwrap();
+    let sizes = [0usize, 1, 55, 56, 63, 64, 65, 100, 128, 5000];
+    let mut files: Vec<(String, String, Vec<u8>)> = vec![]; // (path, base name, content)
+    for (i, n) in sizes.iter().enumerate() {
+        let base = format!("file_{i}_{n}.bin");
+        let rel = match i % 3 { 0 => base.clone(), 1 => format!("sub/{base}"), _ => format!("sub/deeper/{base}") };
+        let content: Vec<u8> = (0..*n).map(|k| ((k * 31 + i * 7 + (k >> 6) * 13) % 251) as u8).collect();
+        std::fs::write(root.join(&rel), &content).unwrap();
+        files.push((root.join(&rel).to_str().unwrap().to_string(), base, content));
+    }
+    let mut cases = 0u64;
+    let n = files.len();
+    let mut orders: Vec<Vec<usize>> = vec![(0..n).collect(), (0..n).rev().collect(), vec![9, 8, 7, 0, 1, 2, 3, 4, 5, 6]];
+    for i in 0..n { orders.push(vec![i]); }
+    orders.push(vec![]);
+    for order in orders.iter() {
+        let paths: Vec<&str> = order.iter().map(|i| files[*i].0.as_str()).collect();
+        let fi = FileInfo::new(&paths).expect("a table is built from readable files");
+        assert_eq!(fi.entries.len(), order.len(), "one entry per file");
+        for (k, i) in order.iter().enumerate() {
+            let e = &fi.entries[k];
+            assert_eq!(e.file_name, files[*i].1, "entry {k}: base name of the file");
+            assert_eq!(e.file_size as usize, files[*i].2.len(), "entry {k}: exact size");
+            assert!(e.sha1 == fiin_fips_sha1(&files[*i].2), "entry {k} ({} bytes, listed after {} other files): SHA-1 digest of the file's content", files[*i].2.len(), k);
+            cases += 1;
+        }
+        let buf = fi.write_to_buffer().expect("write");
+        for (k, i) in order.iter().enumerate() {
+            let r = &buf[1024 + 96 * k..1024 + 96 * (k + 1)];
+            assert_eq!(i32::from_le_bytes(r[0..4].try_into().unwrap()) as usize, files[*i].2.len(), "record {k}: size");
+            assert_eq!(&r[8..8 + files[*i].1.len()], files[*i].1.as_bytes(), "record {k}: name");
+            assert_eq!(&r[72..92], &fiin_fips_sha1(&files[*i].2)[..], "record {k}: digest");
+        }
+    }
+    let _ = std::fs::remove_dir_all(&root);
+    println!("NATIVE native_fiin_new cases={cases}");
+}
+
 //@unit props=C10 label=B tier=quick native=1 fn=fiin::FileInfo::{write_to_buffer,from_existing} bound="by execution: tables of 0..6 entries; names of 1, 5, 31, 62 and 63 bytes, ASCII and multi-byte UTF-8 (2-, 3- and 4-byte characters)"
 //@desc a written table is magic + 16 zero bytes + 1024 + 96*n + 992 zero bytes + n records of 96 bytes (size LE at 0, name at 8 zero-padded to 64, digest at 72 padded to 24) and parses back to the same names, sizes and digests
 #[test]
